@@ -7,6 +7,7 @@ import re
 from kfv import flow
 from kfv.core import AnalysisIncomplete
 from kfv.core import Ctx
+from kfv.rules import memo_rules as MEMO
 from kfv.model import norm
 from kfv.rules import precond_rules as R
 from kfv.rules import spmd_rules as S
@@ -14,7 +15,7 @@ from kfv.rules.spmd_rules import conjuncts
 
 GP = 'gpt_neox.preconditioner.GPTNeoXKFACPreconditioner'
 TECHNIQUE = ('SPMD guard rules (rank-label dataflow incl. file-system observations) over the four checkpoint methods of the GPT-NeoX family, '
-             'guard analysis of the save / load statements, path-table agreement, gather-merge structure, barrier dominance')
+             'guard analysis of the save / load statements, path-table agreement, gather-merge structure, barrier dominance; cache-coherence rule (dirty-flag skips must be raised by load_state_dict)')
 EXPLANATION = (
     'kfac/gpt_neox/preconditioner.py cannot run here; it is analysed statically.  Every collective in state_dict / load_state_dict / '
     'save_factors_to_dir / load_factors_from_dir must be control-dependent only on rank-uniform conditions (file-system checks count as '
@@ -22,7 +23,7 @@ EXPLANATION = (
     'loaded exactly by the rank that gathers its factors (factor_worker(name) == get_rank(), matched by layer name), the second-order '
     'data recomputed there with the current damping when requested, files are written to and read from the same join(dir, name), every '
     'gathered partition is merged into the returned state, the hyper-parameters go through the base class, and the in-memory load ends '
-    'in a barrier on every path that could have diverged.  Equality of saved and held tensors as values is not decided.')
+    'in a barrier on every path that could have diverged.  Equality of saved and held tensors as values is not decided. A skip-guarded recomputation must be re-armed by every writer of the factors, load_state_dict included (MEMO-INVAL).')
 
 NOT_DECIDED = 'equality of saved and held tensors as values'
 
@@ -131,3 +132,4 @@ def run(ctx: Ctx) -> None:
     ctx.do(S.rule_S5, 'GPT')
     ctx.do(rule_ckpt)
     ctx.do(R.rule_damparg, [f'{GP}.load_state_dict', f'{GP}.load_factors_from_dir'])
+    ctx.do(MEMO.rule_memo)
